@@ -3,6 +3,7 @@ package main
 import (
 	"fmt"
 	"math"
+	"runtime"
 	"strings"
 	"time"
 
@@ -148,15 +149,112 @@ func calls() []call {
 }
 
 // guard runs f under recover with a watchdog. Returns panic message or "" ; hung reports a timeout.
+// guard runs f under recover with a two-stage watchdog that is robust against machine load: a call is
+// declared hung after 6 s only if the heap has grown by more than 1.5 GB since it started (the runaway
+// allocation of a spinning sweep, ~350 MB/s, must be stopped before the memory cap); otherwise it gets
+// 25 s of wall time, far more than any terminating call needs even at load 30 (the slowest ones take
+// ~0.5 s on an idle machine).
 func guard(f func()) (msg string, hung bool) {
 	done := make(chan string, 1)
+	var m0 runtime.MemStats
+	start := time.Now()
 	go func() { done <- hc.Try(f) }()
+	// fast path: almost every call returns within milliseconds
 	select {
 	case m := <-done:
 		return m, false
-	case <-time.After(6 * time.Second):
-		return "", true
+	case <-time.After(1 * time.Second):
 	}
+	runtime.ReadMemStats(&m0)
+	tick := time.NewTicker(time.Second)
+	defer tick.Stop()
+	for {
+		select {
+		case m := <-done:
+			return m, false
+		case <-tick.C:
+			el := time.Since(start)
+			if el >= 25*time.Second {
+				return "", true
+			}
+			if el >= 6*time.Second {
+				var m runtime.MemStats
+				runtime.ReadMemStats(&m)
+				if m.HeapAlloc > m0.HeapAlloc+1500<<20 {
+					return "", true
+				}
+			}
+		}
+	}
+}
+
+// overlapCause: cause predicate for hangs of the sweep, decided from the operands alone. The sweep is
+// known not to terminate when contours coincide: "+repeated-subpaths" if two subpaths (of the receiver
+// and, for binary operations, the argument) have bit-identical record arrays apart from nothing — the
+// same contour twice; "+repeated-segments" if at least two drawing records coincide exactly (same
+// start, same record, possibly reversed end points for lines); "" otherwise.
+func overlapCause(ps ...*canvas.Path) string {
+	var subs []string
+	type segKey struct {
+		a, b hc.P2
+		rest string
+	}
+	segs := map[segKey]int{}
+	repeatedSeg := false
+	for _, p := range ps {
+		if p == nil {
+			continue
+		}
+		ss, err := hc.Decode(p.Data())
+		if err != nil {
+			continue
+		}
+		d := p.Data()
+		i := 0
+		var cur strings.Builder
+		flush := func() {
+			if cur.Len() > 0 {
+				subs = append(subs, cur.String())
+				cur.Reset()
+			}
+		}
+		for _, sg := range ss {
+			n := recLen(d[i])
+			if sg.Kind == 'M' {
+				flush()
+			}
+			cur.WriteString(hc.DataHex(d[i:i+n]) + ";")
+			if sg.Kind != 'M' && !(sg.Kind == 'Z' && sg.P0 == sg.End) {
+				a, b := sg.P0, sg.End
+				rest := ""
+				if sg.Kind == 'L' || sg.Kind == 'Z' {
+					if b.X < a.X || (b.X == a.X && b.Y < a.Y) {
+						a, b = b, a
+					}
+				} else {
+					rest = hc.DataHex(d[i+1 : i+n-3])
+				}
+				k := segKey{a, b, rest}
+				segs[k]++
+				if segs[k] > 1 {
+					repeatedSeg = true
+				}
+			}
+			i += n
+		}
+		flush()
+	}
+	seen := map[string]bool{}
+	for _, s := range subs {
+		if len(s) > 70 && seen[s] { // more than a lone MoveTo
+			return "+repeated-subpaths"
+		}
+		seen[s] = true
+	}
+	if repeatedSeg {
+		return "+repeated-segments"
+	}
+	return ""
 }
 
 func cloneF(a []float64) []float64 { return append([]float64(nil), a...) }
@@ -263,7 +361,12 @@ func total(c *hc.Ctx, pool []*canvas.Path) {
 			}
 			msg, hung := guard(func() { cl.f(&y) })
 			if hung {
-				fail(c, "hang:"+cl.name, cl.name+" did not return within 6s", replay)
+				cause := overlapCause(p)
+				switch cl.name {
+				case "And", "Or", "Xor", "Not", "DivideBy":
+					cause = overlapCause(p, q)
+				}
+				fail(c, "hang:"+cl.name+cause, cl.name+" did not return (watchdog: 25 s, or 6 s with more than 1.5 GB of new heap)", replay)
 				// the abandoned goroutine cannot be stopped and the sweep allocates ~350 MB/s while it
 				// spins: end the totality oracle here, the process exit reclaims it
 				aborted = true
